@@ -534,6 +534,7 @@ Section C19.
                all_rules (f_groups (parse_strict plines metric_ok lname_ok lvalue_ok dur_ok int_ok null_ok thanos lines [(d, nl)] None)).
   Proof.
     intros Hwf. unfold parse_strict, parse_relaxed. cbn [parse_strict_loop parse_relaxed_loop].
+    destruct (too_big d); [intros [He _]; discriminate|].
     destruct (strict_prepass null_ok d) as [pe|]; [intros [He _]; discriminate|].
     destruct (parse_groups plines metric_ok lname_ok lvalue_ok dur_ok int_ok thanos (firstn nl lines) d) as [e|gs] eqn:PGs.
     - intros [He _]. discriminate.
@@ -549,7 +550,8 @@ Section C19.
   Proof.
     induction r as [|[d nl] r IH]; intros idx groups err Hi He; cbn [parse_strict_loop].
     - destruct yerr; cbn; [discriminate|exact He].
-    - destruct (strict_prepass null_ok d); [cbn; discriminate|].
+    - destruct (too_big d); [cbn; discriminate|].
+      destruct (strict_prepass null_ok d); [cbn; discriminate|].
       destruct (parse_groups _ _ _ _ _ _ _ _ d); [cbn; discriminate|].
       apply IH; [lia|]. destruct idx; [lia|]. cbn. discriminate.
   Qed.
@@ -561,11 +563,14 @@ Section C19.
   Proof.
     unfold parse_strict. destruct ds as [|[d nl] [|[d2 nl2] r]]; cbn [parse_strict_loop].
     - destruct yerr; intros [He _]; [discriminate|]. auto.
-    - destruct (strict_prepass null_ok d); [intros [He _]; discriminate|].
+    - destruct (too_big d); [intros [He _]; discriminate|].
+      destruct (strict_prepass null_ok d); [intros [He _]; discriminate|].
       destruct (parse_groups _ _ _ _ _ _ _ _ d); [intros [He _]; discriminate|].
       destruct yerr; intros [He _]; [discriminate|]. split; [reflexivity|]. right. eauto.
-    - destruct (strict_prepass null_ok d); [intros [He _]; discriminate|].
+    - destruct (too_big d); [intros [He _]; discriminate|].
+      destruct (strict_prepass null_ok d); [intros [He _]; discriminate|].
       destruct (parse_groups _ _ _ _ _ _ _ _ d); [intros [He _]; discriminate|].
+      destruct (too_big d2); [intros [He _]; discriminate|].
       destruct (strict_prepass null_ok d2); [intros [He _]; discriminate|].
       destruct (parse_groups _ _ _ _ _ _ _ _ d2); [intros [He _]; discriminate|].
       intros [He _]. exfalso. revert He. apply strict_loop_multi; [lia|]. cbn. discriminate.
